@@ -142,6 +142,7 @@ pub fn run_multi(seed: u64, tier: &str, out: &mut Out) {
         if i % 5 == 0 { c.h = *rng.pick(&[2u16, 3, 4, 6]); }     // some terminals shorter than the frame
         if c.hz == 0 { c.hz = *rng.pick(&[20u8, 255]); }
         let case = format!("NOMODEL PTYMULTI w={} h={} hz={} ops={}", c.w, c.h, c.hz, c.ops.len());
+        crate::common::about_to_run(&crate::multi::encode(&c));
         let rec = Recorder::new(c.h, c.w, true);
         let r2 = rec.clone();
         let a = drive_multi(&c, &mut || ProgressDrawTarget::term_like_with_hz(Box::new(rec.clone()), c.hz), &|l| { r2.write_line(l).unwrap(); },
@@ -173,6 +174,7 @@ pub fn run(seed: u64, tier: &str, out: &mut Out) {
         if c.h < 2 { c.h = 2; }
         c.hz = *rng.pick(&[20u8, 255]);
         let case = format!("NOMODEL PTY w={} h={} hz={} ops={}", c.w, c.h, c.hz, c.ops.len());
+        crate::common::about_to_run(&crate::bar::encode(&c, &crate::bar::planned_ops(&c)));
         let rec = Recorder::new(c.h, c.w, true);
         let r2 = rec.clone();
         let a = drive(&c, &mut || ProgressDrawTarget::term_like_with_hz(Box::new(rec.clone()), c.hz), &|l| { r2.write_line(l).unwrap(); },
